@@ -795,7 +795,7 @@ def c13(tier, rng, rep, only=None):
                          "checked_fields": fields, "exhaustive": False})
     for c in [c for c in g.cases if c.impl and "=" in c.impl][:: max(1, (nviews + npairs) // 6 or 1)][:6]:
         rep.samples.append({"decl": c.decl.id, "op": c.op, "arg": c.arg, "impl": c.impl})
-    for k in ("as_ref", "deref", "borrow", "borrow_str", "display", "clone", "copy", "into", "iter_ref", "iter_val", "eq", "pcmp", "cmp", "h", "hstr"):
+    for k in ("as_ref", "deref", "borrow", "borrow_str", "display", "display_fmt", "clone", "copy", "into", "iter_ref", "iter_val", "eq", "pcmp", "cmp", "h", "hstr"):
         if not fields.get(k):
             rep.violation("self-check: %s never checked" % k, {"kind": "coverage"}, no_input=True)
 
@@ -1159,7 +1159,7 @@ def c10(tier, rng, rep, only=None):
                          "checked_fields": fields, "exhaustive": False})
     for c in g.cases[:: max(1, len(g.cases) // 6 or 1)][:6]:
         rep.samples.append({"decl": c.decl.id, "arg": c.arg, "impl": c.impl})
-    for k in ("json", "mp", "ron", "rt_json", "rt_mp", "rt_ron"):
+    for k in ("json", "mp", "ron", "rt_json", "rt_mp", "rt_ron", "rt_ron_named"):
         if not fields.get(k) and only is None:
             rep.violation("self-check: %s never checked" % k, {"kind": "coverage"}, no_input=True)
 
